@@ -13,6 +13,9 @@ S: independent of the model: the returned cost against the optimum obtained by p
    Histories: a query (is_sat / is_valid / is_unsat) immediately before the routine -- its level is
    still pending when the routine pushes -- and probes after it (public `assertions`, is_sat(True), a
    second optimize against the enumerated optimum).
+   Abandoned generators (routine "ptake"): `pareto_optimize` consumed for k solutions and closed;
+   the solutions must be distinct points of the enumerated front and the solver restored (K: the
+   model's `paretoPrefix`).
    Goal *reuse* (routine "reuse", S only -- the Lean model treats a goal as an immutable value):
    one MaxSMTGoal object is optimised, extended with further soft clauses (weights given as
    Python int / Fraction / float / FNode) and optimised again on the same solver; every result is
@@ -456,6 +459,13 @@ def run_case(case):
             res = solver.lexicographic_optimize(goals, strategy=strat)
         elif routine == "pareto":
             res = list(solver.pareto_optimize(goals))
+        elif routine == "ptake":
+            # the generator is consumed for `take` solutions and then abandoned
+            gen = solver.pareto_optimize(goals)
+            try:
+                res = list(itertools.islice(gen, int(case["take"])))
+            finally:
+                gen.close()
         else:
             raise ValueError(routine)
     except Exception as e:      # noqa -- every exception is an outcome
@@ -569,6 +579,25 @@ def run_case(case):
                     report("none", "lexicographic_optimize returned a solution for unsatisfiable assertions")
                 elif cvs != [e * s for e, s in zip(exp, prep.scale)]:
                     report("cost", "lexicographic_optimize returned %s, the lexicographic optimum is %s" % (cvs, exp))
+        elif routine == "ptake":
+            parts = []
+            got = []
+            for m, cs in res:
+                row = check_model(m, list(enumerate(cs)), "pareto (abandoned)")
+                cvs = tuple(cost_value(prep, gi, c) for gi, c in enumerate(cs))
+                got.append(cvs)
+                parts.append("m%s:%s" % (row, ",".join(str(v) for v in cvs)))
+            py_res = ";".join(parts) if parts else "empty"
+            exp = pareto_front(prep, feasible)
+            k = int(case["take"])
+            if len(set(got)) != len(got):
+                report("cost", "abandoned pareto_optimize yielded a cost vector twice: %s" % (got,), shape="duplicate")
+            if not set(got) <= exp:
+                report("cost", "abandoned pareto_optimize yielded %s, not all on the Pareto front %s"
+                       % (sorted(set(got)), sorted(exp)), shape="non-optimal")
+            if len(got) > k or (len(got) < k and set(got) != exp):
+                report("cost", "abandoned pareto_optimize yielded %d solutions for take=%d, front size %d"
+                       % (len(got), k, len(exp)), shape="count")
         elif routine == "pareto":
             parts = []
             got = []
@@ -622,7 +651,8 @@ def run_case(case):
     # ------------------------------------------------------------------ K request
     goal_str = ",".join("%s:%s:%d" % (d, dm, 1 if s else 0)
                         for d, dm, s in zip(prep.dirs, prep.doms, prep.supported))
-    req = "opt %s %s %s %d %s %s" % (routine, mixin, strat, FUEL, goal_str, ";".join(log) if log else ".")
+    rname = "ptake:%d" % int(case["take"]) if routine == "ptake" else routine
+    req = "opt %s %s %s %d %s %s" % (rname, mixin, strat, FUEL, goal_str, ";".join(log) if log else ".")
     py_ans = {"result": py_res, "lv": len(after[1]) - len(before[1]),
               "st": len(after[0]) - len(before[0]), "calls": nsolve, "trace": trace}
     info["prep"] = prep
@@ -963,6 +993,16 @@ def _gen_focus(ctx):
                                rng.sample(bv_goals(w), ngoals), "lexi", st, m)
                         c["chooser"] = chooser
                         yield "lexi-wide", c
+    # abandoned Pareto generators (F24d)
+    for m in mixins:
+        for take in (1, 2, 3):
+            for _ in range(2 * reps):
+                w = rng.choice([2, 3])
+                vars_ = [["a", "bv", w], ["b", "bv", w]]
+                c = mk(vars_, rng.sample(bv_palette(w)[:-1], rng.randint(0, 2)), rng.sample(bv_goals(w), 2),
+                       "ptake", "linear", m)
+                c["take"] = take
+                yield "history", c
     # histories
     small_vars = [["x", "int", -3, 3], ["y", "int", -2, 4], ["p", "bool"]]
     small_box = [["and", ["le", ["int", -3], "x"], ["le", "x", ["int", 3]]],
@@ -1101,6 +1141,11 @@ def _gen_sampled(ctx):
                     gs = [rng.choice(pool)]
         if routine != "single" and rng.random() < 0.01:
             gs = []            # F24c: lexicographic / pareto with no goal at all
+        if routine == "pareto" and gs and rng.random() < 0.4 and not any(g["kind"] == "maxsmt" for g in gs):
+            c = mk(vars_, asserts, gs, "ptake", strat, mixin)
+            c["take"] = rng.choice([1, 1, 2, 3])
+            yield fam, c
+            continue
         if fam != "unsupported" and gs and rng.random() < 0.2:
             yield fam, _with_history(rng, mk(vars_, asserts, gs, routine, strat, mixin), asserts, pool)
             continue
